@@ -29,7 +29,7 @@ func init() {
 		Assumptions: []string{"an error on an operation the model considers valid is not a violation (the statement constrains successes and failures, not which calls succeed); every (operation, path form) pair must have been observed to succeed at least once",
 			"sibling-type values (code for an enum-bound code, integer for positiveInt, id for a reference) may be normalised by the library: on success only the frame (everything but the target) and non-emptiness of the target are checked"},
 		Run:    runC18,
-		Checks: map[string]func(*core.Env, []json.RawMessage){"patch": replayC18, "seq": replayC18Seq},
+		Checks: map[string]func(*core.Env, []json.RawMessage){"patch": replayC18, "seq": replayC18Seq, "codes": replayC18Codes},
 		Threshold: func(m *core.Merged) []string {
 			var r []string
 			for _, op := range []string{"add", "insert", "delete", "replace"} {
@@ -45,7 +45,7 @@ func init() {
 					r = append(r, "path form never observed to succeed: "+f)
 				}
 			}
-			for _, k := range []string{"move", "delete-absent", "sequence", "class:choice", "class:code", "class:reference", "class:bundle-entry", "class:repeated", "class:scalar", "nil-value", "nil-resource", "wrong-type", "index-out-of-range", "duplicate-sibling"} {
+			for _, k := range []string{"move", "delete-absent", "sequence", "class:choice", "class:code", "class:reference", "class:bundle-entry", "class:repeated", "class:scalar", "nil-value", "nil-resource", "wrong-type", "index-out-of-range", "duplicate-sibling", "code-patch"} {
 				if m.Cover[k] == 0 {
 					r = append(r, "never observed: "+k)
 				}
@@ -365,6 +365,7 @@ func c18Run(env *core.Env, c c18Case) (bool, bool) {
 	var valid bool        // the harness' model considers the operation valid
 	var frameOnly bool    // on success only check the frame
 	var value proto.Message
+	var modelValue proto.Message // for a sibling value whose normalised form is known (a valid code for a bound code element)
 	var targetFD protoreflect.FieldDescriptor
 	var targetParent *model.Node // node whose field is edited (for the frame check)
 	mkValue := func(fd protoreflect.FieldDescriptor) {
@@ -374,8 +375,8 @@ func c18Run(env *core.Env, c c18Case) (bool, bool) {
 				value = unwrapValue(v)
 			}
 		case "sibling":
-			value = siblingValue(fd, rng)
-			frameOnly = true
+			value, modelValue = siblingValue(fd, rng)
+			frameOnly = modelValue == nil
 		case "wrong":
 			// a type that fits no field but Patient.communication (open choices such as Extension.value accept most datatypes)
 			value = &ppb.Patient_Communication{Preferred: &dtpb.Boolean{Value: true}}
@@ -410,6 +411,8 @@ func c18Run(env *core.Env, c c18Case) (bool, bool) {
 			if c.Value == "right" {
 				// a right-type value for a choice element: same member type as the current value keeps the case simple
 				valid = modelReplace(xnd, proto.Clone(value))
+			} else if modelValue != nil {
+				valid = modelReplace(xnd, proto.Clone(modelValue))
 			} else {
 				valid = false
 			}
@@ -438,6 +441,8 @@ func c18Run(env *core.Env, c c18Case) (bool, bool) {
 		targetFD, targetParent = nd.FD, nd.Parent
 		if value != nil && c.Value == "right" {
 			valid = modelInsert(xnd.Parent.Msg, xnd.FD, proto.Clone(value), c.Index)
+		} else if modelValue != nil {
+			valid = modelInsert(xnd.Parent.Msg, xnd.FD, proto.Clone(modelValue), c.Index)
 		}
 	case "add":
 		// the path selects the element nd; the named field of nd gains the value
@@ -460,6 +465,8 @@ func c18Run(env *core.Env, c c18Case) (bool, bool) {
 			targetFD, targetParent = fd, nd
 			if value != nil && c.Value == "right" {
 				valid = modelAdd(xnd.Msg, fd, proto.Clone(value))
+			} else if modelValue != nil {
+				valid = modelAdd(xnd.Msg, fd, proto.Clone(modelValue))
 			}
 		}
 	case "move":
@@ -677,19 +684,48 @@ func unwrapValue(v protoreflect.Message) proto.Message {
 }
 
 // siblingValue: a value of a closely related type the library may normalise (code for enum codes, integer for positiveInt/unsignedInt, string for markdown…).
-func siblingValue(fd protoreflect.FieldDescriptor, r *core.Rng) proto.Message {
+func siblingValue(fd protoreflect.FieldDescriptor, r *core.Rng) (proto.Message, proto.Message) {
+	v, m := siblingValue2(fd, r)
+	return v, m
+}
+
+// siblingValue2 also returns the element a valid code must be stored as (the bound code message holding the
+// enum value whose FHIR code was supplied), when that is known.
+func siblingValue2(fd protoreflect.FieldDescriptor, r *core.Rng) (proto.Message, proto.Message) {
 	md := fd.Message()
-	switch {
-	case gen.IsCodeWrapper(md):
+	if gen.IsCodeWrapper(md) {
 		vf := md.Fields().ByName("value")
 		if vf != nil && vf.Kind() == protoreflect.EnumKind && vf.Enum().Values().Len() > 1 {
-			code := gen.OriginalCode(vf.Enum().Values().Get(1 + r.Intn(vf.Enum().Values().Len()-1)))
+			ev := vf.Enum().Values().Get(1 + r.Intn(vf.Enum().Values().Len()-1))
+			code := gen.OriginalCode(ev)
 			if r.Intn(4) == 0 {
-				code = "not-a-valid-code"
+				return &dtpb.Code{Value: "not-a-valid-code"}, nil
 			}
-			return &dtpb.Code{Value: code}
+			if ev.Number() == 0 {
+				return &dtpb.Code{Value: code}, nil
+			}
+			// the same code must not belong to two values of the enum (aliases): then the stored value is not determined
+			n := 0
+			for i := 0; i < vf.Enum().Values().Len(); i++ {
+				if gen.OriginalCode(vf.Enum().Values().Get(i)) == code {
+					n++
+				}
+			}
+			if n != 1 {
+				return &dtpb.Code{Value: code}, nil
+			}
+			m := gen.NewMessage(md)
+			m.Set(vf, protoreflect.ValueOfEnum(ev.Number()))
+			return &dtpb.Code{Value: code}, m.Interface()
 		}
-		return &dtpb.Code{Value: "en"}
+		return &dtpb.Code{Value: "en"}, nil
+	}
+	return siblingValue1(fd, r), nil
+}
+
+func siblingValue1(fd protoreflect.FieldDescriptor, r *core.Rng) proto.Message {
+	md := fd.Message()
+	switch {
 	case md.Name() == "PositiveInt" || md.Name() == "UnsignedInt":
 		return &dtpb.Integer{Value: []int32{1, 5, 0, -1}[r.Intn(4)]}
 	case md.Name() == "Integer":
@@ -1021,10 +1057,136 @@ func replayC18Seq(env *core.Env, a []json.RawMessage) {
 	c18Sequence(env, tn, seed)
 }
 
+// c18Codes: a FHIR `code` value patched into every value-set bound top-level element of every resource type,
+// for every code of its value set - all in one process, in two orders. On success the element must hold exactly
+// the enum value whose FHIR code was supplied (the same code string means different values in different value sets).
+func c18Codes(env *core.Env, reverse bool) {
+	defer env.In("codes", reverse)()
+	types := append([]protoreflect.MessageDescriptor{}, gen.ResourceTypes()...)
+	if reverse {
+		for i, j := 0, len(types)-1; i < j; i, j = i+1, j-1 {
+			types[i], types[j] = types[j], types[i]
+		}
+	}
+	for _, md := range types {
+		fs := md.Fields()
+		for i := 0; i < fs.Len(); i++ {
+			fd := fs.Get(i)
+			wm := fd.Message()
+			if wm == nil || !gen.IsCodeWrapper(wm) || lexicallyOdd(fd.JSONName()) {
+				continue
+			}
+			vf := wm.Fields().ByName("value")
+			if vf == nil || vf.Kind() != protoreflect.EnumKind {
+				continue
+			}
+			vals := vf.Enum().Values()
+			for k := 1; k < vals.Len(); k++ {
+				ev := vals.Get(k)
+				code := gen.OriginalCode(ev)
+				dup := 0
+				for q := 0; q < vals.Len(); q++ {
+					if gen.OriginalCode(vals.Get(q)) == code {
+						dup++
+					}
+				}
+				if dup != 1 || ev.Number() == 0 {
+					continue
+				}
+				for _, op := range []string{"add", "replace"} {
+					res := gen.NewMessage(md)
+					res.Set(fs.ByName("id"), protoreflect.ValueOfMessage((&dtpb.Id{Value: "c"}).ProtoReflect()))
+					path := string(md.Name())
+					if op == "replace" || fd.IsList() {
+						// populated with another value first
+						other := gen.NewMessage(wm)
+						other.Set(vf, protoreflect.ValueOfEnum(vals.Get(1+(k%(vals.Len()-1))).Number()))
+						if fd.IsList() {
+							res.Mutable(fd).List().Append(protoreflect.ValueOfMessage(other))
+						} else {
+							res.Set(fd, protoreflect.ValueOfMessage(other))
+						}
+					}
+					if op == "replace" {
+						path += "." + model.IdentSrc(fd.JSONName())
+						if fd.IsList() {
+							path += "[0]"
+						}
+					} else if !fd.IsList() && op == "add" {
+						res.Clear(fd)
+					}
+					r := res.Interface().(fhir.Resource)
+					var perr error
+					desc := fmt.Sprintf("patch.%s(%s, `%s`, %q, code %q)", op, md.Name(), path, fd.JSONName(), code)
+					out := env.Guard(desc, func() {
+						if op == "add" {
+							perr = patch.Add(r, path, fd.JSONName(), &dtpb.Code{Value: code}, &patch.Options{})
+						} else {
+							perr = patch.Replace(r, path, &dtpb.Code{Value: code})
+						}
+					})
+					env.Eval(1)
+					env.Case()
+					env.Cover("code-patch")
+					if out.Panicked || out.Dead {
+						if !out.Dead {
+							env.Violatef("C18/panic@"+out.Site+"/"+core.NormMsg(out.PanicMsg), "%s panicked: %s", desc, out.PanicMsg)
+						}
+						continue
+					}
+					if perr != nil {
+						env.Cover("code-patch-rejected")
+						continue // a library may refuse a sibling type; then nothing may have changed (covered by the generated cases)
+					}
+					var got protoreflect.Message
+					if fd.IsList() {
+						l := res.Get(fd).List()
+						idx := l.Len() - 1
+						if op == "replace" {
+							idx = 0
+						}
+						if idx < 0 {
+							env.Violatef("C18/code-patch/"+op+"/no-element", "%s returned nil but the list is empty", desc)
+							continue
+						}
+						got = l.Get(idx).Message()
+					} else {
+						if !res.Has(fd) {
+							env.Violatef("C18/code-patch/"+op+"/no-element", "%s returned nil but the element is absent", desc)
+							continue
+						}
+						got = res.Get(fd).Message()
+					}
+					if got.Get(vf).Enum() != ev.Number() {
+						holds := fmt.Sprintf("the undefined enum number %d", got.Get(vf).Enum())
+						if d := vals.ByNumber(got.Get(vf).Enum()); d != nil {
+							holds = fmt.Sprintf("%s (%q)", d.Name(), gen.OriginalCode(d))
+						}
+						env.Violatef("C18/code-patch/"+op+"/wrong-code-stored", "%s returned nil but the element now holds %s instead of %s", desc, holds, ev.Name())
+					}
+					env.Distinct("code-patch|" + string(wm.FullName()) + "|" + string(ev.Name()) + "|" + op)
+				}
+			}
+		}
+	}
+}
+
+func replayC18Codes(env *core.Env, a []json.RawMessage) {
+	var rev bool
+	json.Unmarshal(a[0], &rev)
+	c18Codes(env, rev)
+}
+
 func runC18(env *core.Env) {
 	n := 0
 	if env.Mine(n) {
 		c18Fixed(env, false)
+	}
+	for _, rev := range []bool{false, true} {
+		n++
+		if env.Mine(n) {
+			c18Codes(env, rev)
+		}
 	}
 	types := gen.ResourceTypes()
 	per := env.Size(1, 8)
